@@ -669,6 +669,29 @@ fn finish_inner(cx: &Ctx, early: bool) -> i32 {
 					let same = so.lines().any(|l| l.trim() == format!("REPLAY-KEY {}", v.key))
 						|| (v.key.contains("aborted-by-signal") && o.status.code().is_none());
 					if !same {
+						// Not reproducible from a fresh process. If it still fails, twice, when the oracle is
+						// re-run here - in the process that has executed the other cases before - the library
+						// carries state from one call to the next (a cache, a static): the failing history is
+						// "this case after the earlier ones", and that is a verdict. Otherwise the harness is
+						// nondeterministic and nothing is reported.
+						let again = |art: &Value| -> Option<String> {
+							let f = crate::checks::oracle_by_name(art["oracle"].as_str()?)?;
+							let input = unhex(art["input_hex"].as_str().unwrap_or(""));
+							let p = P::from_json(&art["params"]);
+							f(&input, &p).viol.map(|x| x.key)
+						};
+						if again(art).as_deref() == Some(v.key.as_str()) && again(art).as_deref() == Some(v.key.as_str()) {
+							let mut art2 = art.clone();
+							art2["history_dependent"] = json!(true);
+							art2["note"] = json!("fails only in a process that has made other calls into the library before (state carried across calls); replaying this single case in a fresh process passes");
+							let _ = std::fs::write(&path, serde_json::to_string_pretty(&art2).unwrap());
+							println!("VIOLATION property={} replay={}", cx.prop, path);
+							println!("  {}", v.msg);
+							println!("  (history-dependent: reproduced twice in the exploring process, not from a fresh process - the library keeps state across calls)");
+							confirmed += 1;
+							code = 1;
+							continue;
+						}
 						eprintln!(
 							"machinery: violation not reproduced identically in a fresh process (nondeterministic harness?)\n  key: {}\n  replay said: {}",
 							v.key, so
